@@ -138,7 +138,7 @@ CHECKS["C07"] = dict(
           dict(pkg="rib", harness="VfC07_getRIB_t", reach=["end", "pre-built", "all"], quick=dict(skip=True), opts=dict(only=["C07:"]),
                bounds="as getRIB_q with 2 next-hops, 2 top-level entries, a held operation (must not be reported), groups of <=2 members, slots in either instance"),
           dict(pkg="server", harness="VfC07_doGet", reach=["end"], bounds="Server.Get on a scripted stream: instance selector (all / name incl. empty and unknown) x table filter (any enum number); small concrete RIB in two instances")],
-    assumptions=["PARTIAL: the field-for-field fidelity of the reflection pipeline (protomap / ytypes / ygot) is replaced by models that carry key, group reference(+instance), metadata, members/weights/backup/colour, next-hop network-instance; every other payload field (addresses, MAC, interface refs, encap/decap headers, label stacks, pop-top-label ...) is OUTSIDE this check (a concrete probe shows pop_top_label is dropped by the real pipeline; this family cannot decide it)"],
+    assumptions=["PARTIAL: the reflection pipeline (protomap / ytypes / ygot) is replaced by models that carry key, group reference(+instance), metadata, members/weights/backup/colour, next-hop network-instance, pop-top-label, encapsulate-/decapsulate-header; the models are calibrated and compared with the real functions on random payloads before every run, and sample paths are replayed natively (a native failure of a C07 assertion is reported as a VIOLATION). Every other payload field (addresses, MAC, interface refs, label stacks, ...) is OUTSIDE this check"],
     level_text="Bounded symbolic execution of GetRIB / doGet / FromGetResponses from symbolic RIB contents: scope, filter, tagging, once-only and modelled-field payload equality are decided for every symbolic key/value.",
     level_note=_RIBNOTE)
 
